@@ -135,6 +135,19 @@ impl RibQueryFixture {
         self.rib.load().withdraw_for_ingress(mui, None)
     }
 
+    /// What the unicast (`multicast == false`) or multicast store itself
+    /// reports as (less, more) specific prefixes of `prefix`.
+    pub fn store_specifics(
+        &self,
+        prefix: Prefix,
+        multicast: bool,
+    ) -> (Vec<Prefix>, Vec<Prefix>) {
+        self.rib
+            .load()
+            .verif_store_specifics(&prefix, multicast)
+            .unwrap_or_default()
+    }
+
     /// `GET uri` through `PrefixesApi::process_request`. `None` when the
     /// processor declines the request; otherwise status and body.
     pub async fn get(&self, uri: &str) -> Result<Option<(u16, String)>, String> {
